@@ -147,11 +147,17 @@ def oracles(req, ev, access, prims):
                     if "/" not in sa:
                         continue
                     A = int(sa.split("/")[1])
-                    for f in (m["variants"][vi] if vi < len(m["variants"]) else []):
+                    own = set(m["variants"][vi] if vi < len(m["variants"]) else [])
+                    for f in own:
                         a = fields[f]["align"]
                         if a and A % a != 0:
                             hits.append(("C07", f"record type of variant {vi} has alignment {A}, not a multiple of field {fields[f]['name']}'s alignment {a}: references to it can be misaligned", li))
-                            hits.append(("C02", f"record type of variant {vi} has alignment {A}, not a multiple of field {fields[f]['name']}'s alignment {a}", li))
+                    # C02: a multiple of the alignment of every datum of every variant of the definition
+                    for vj, ids in enumerate(m["variants"]):
+                        for f in ids:
+                            a = fields[f]["align"]
+                            if a and A % a != 0:
+                                hits.append(("C02", f"record type of variant {vi} has alignment {A}, not a multiple of the alignment {a} of datum {fields[f]['name']} (variant {vj})", li))
             elif op in ("new", "newu"):
                 v, r = int(t[1]), int(t[2])
                 ids = m["variants"][v]
@@ -194,10 +200,13 @@ def oracles(req, ev, access, prims):
                     if st[f] is not None and fields[f]["ty"] in DROPPABLE:
                         died(lab(f, st[f]), li)   # handed back to the caller
             elif op == "drop":
-                v, st = regs.pop(int(t[1]))
+                rr = int(t[1])
+                v, st = regs.pop(rr)
                 want = sorted(lab(f, st[f]) for f in m["variants"][v] if fields[f]["ty"] in DROPPABLE and st[f] is not None)
                 if sorted(drops) != want:
                     hits.append(("C06", f"dropping the record destroyed {sorted(drops)}, it owned {want}", li))
+                    if rr in cloned:
+                        hits.append(("C16", f"dropping a clone destroyed {sorted(drops)}, a clone of that record owns {want}: the clone is not an independent copy", li))
             elif op == "conv":
                 form, r, nr = t[1], int(t[2]), int(t[3])
                 v, st = regs.pop(r)
@@ -228,6 +237,8 @@ def oracles(req, ev, access, prims):
             elif op in ("clone", "serde"):
                 r, nr = (int(t[1]), int(t[2])) if op == "clone" else (int(t[2]), int(t[3]))
                 v, st = regs[r]
+                if op == "clone" and drops:
+                    hits.append(("C16", f"cloning a record destroyed {sorted(drops)}: a clone destroys nothing", li))
                 nst = {}
                 for f in m["variants"][v]:
                     x = st[f]
